@@ -3,7 +3,9 @@ package engine
 import (
 	"encoding/json"
 	"fmt"
+	"io"
 	"math"
+	"net/http"
 	"math/rand/v2"
 	"os"
 	"path/filepath"
@@ -28,6 +30,7 @@ type C17Case struct {
 	Files     []WFile      `json:"files"`
 	Queries   [][]C04Query `json:"queries,omitempty"` // per actor (mode handle)
 	Cmds      []Cmd        `json:"cmds,omitempty"`    // modes sum, server
+	Raw       []string     `json:"raw,omitempty"`     // mode server: raw request paths (with query) issued by extra clients
 	PreemptP  float64      `json:"preempt_p"`
 	SchedSeed uint64       `json:"sched_seed"`
 }
@@ -102,6 +105,29 @@ func (c17Sim) Gen(prop, tier string, r *rand.Rand) interface{} {
 			genWindow(r, l, &cm)
 			c.Cmds = append(c.Cmds, cm)
 		}
+		// raw requests, many of them failing in different ways: every response
+		// (status and body) must be what the same request gets when alone
+		rawChoices := []string{
+			"/view?retention=0&from=2000-01-01T00:00:00Z&until=2000-01-01T00:00:00Z&now=2000-01-01T00:00:00Z", // "file" empty
+			"/view?file=top.wsp&retention=x&from=a&until=b&now=c",
+			"/view?file=top.wsp&retention=99&from=2001-01-01T00:00:00Z&until=2001-01-01T00:00:10Z&now=2001-01-01T00:00:10Z",
+			"/view?file=top.wsp&retention=0&from=bad&until=2001-01-01T00:00:10Z&now=2001-01-01T00:00:10Z",
+			"/view?file=top.wsp&retention=0&from=2001-01-01T00:00:00Z&until=bad&now=2001-01-01T00:00:10Z",
+			"/view-raw?file=top.wsp&retention=99",
+			"/view-raw?file=&retention=0",
+			"/view-raw?file=grp/it0/a.wsp&retention=-1",
+			"/sum?item=&pattern=*.wsp&retention=0",
+			"/sum?item=grp.it0&pattern=&retention=0",
+			"/sum?item=grp.it0&pattern=*.wsp&retention=zz",
+			"/items?pattern=",
+			"/items?pattern=grp/*",
+			"/files?pattern=[",
+			"/files?pattern=grp/it0/*.wsp",
+			"/files?pattern=",
+		}
+		for i := 0; i < int(between(r, 0, 6)); i++ {
+			c.Raw = append(c.Raw, rawChoices[r.IntN(len(rawChoices))])
+		}
 	}
 	return c
 }
@@ -127,6 +153,14 @@ func validC17(c *C17Case) bool {
 	}
 	for _, qs := range c.Queries {
 		if len(qs) > 10 {
+			return false
+		}
+	}
+	if len(c.Raw) > 12 {
+		return false
+	}
+	for _, q := range c.Raw {
+		if len(q) == 0 || q[0] != '/' || len(q) > 300 {
 			return false
 		}
 	}
@@ -302,6 +336,16 @@ func c17Commands(e *Env, c *C17Case) {
 	for i, cm := range c.Cmds {
 		refs = append(refs, rr.run1(cm, fmt.Sprintf("ref%d", i)))
 	}
+	rawRef := make([]string, len(c.Raw))
+	if remote {
+		for i, q := range c.Raw {
+			i, q := i, q
+			rr.s.Go(fmt.Sprintf("R%d", i), func() { rawRef[i] = rawGet(q) })
+			rr.s.Install()
+			rr.s.Run()
+			Uninstall()
+		}
+	}
 	rr.close()
 	e.OutSched = nil
 	for _, r := range refs {
@@ -315,6 +359,13 @@ func c17Commands(e *Env, c *C17Case) {
 	tags := make([]string, len(c.Cmds))
 	for i := range tags {
 		tags[i] = fmt.Sprintf("con%d", i)
+	}
+	rawGot := make([]string, len(c.Raw))
+	if remote {
+		for i, q := range c.Raw {
+			i, q := i, q
+			cr.s.Go(fmt.Sprintf("R%d", i), func() { rawGot[i] = rawGet(q) })
+		}
 	}
 	got := cr.run(c.Cmds, tags)
 	var srvPanics []string
@@ -357,9 +408,30 @@ func c17Commands(e *Env, c *C17Case) {
 			return
 		}
 	}
+	for i := range c.Raw {
+		if remote && rawGot[i] != rawRef[i] {
+			e.Violate("C17.equal-sequential", "raw request %s: response %q when issued concurrently with %d other request(s), %q when issued alone",
+				c.Raw[i], trunc(rawGot[i], 160), len(c.Raw)+len(c.Cmds)-1, trunc(rawRef[i], 160))
+			return
+		}
+	}
+	if remote && len(c.Raw) > 1 {
+		e.Probe("raw-requests-compared")
+	}
 	if len(s.Preempts) > 0 {
 		e.Probe("interleaved-" + c.Mode)
 	}
+}
+
+// rawGet issues one GET over the simulated wire and returns status and body.
+func rawGet(pathAndQuery string) string {
+	resp, err := http.Get(simURL + pathAndQuery)
+	if err != nil {
+		return "transport error: " + err.Error()
+	}
+	defer resp.Body.Close()
+	b, _ := io.ReadAll(resp.Body)
+	return fmt.Sprintf("%d %s|%s", resp.StatusCode, resp.Header.Get("Content-Type"), b)
 }
 
 // RunRace executes the case free-running (no scheduler, no yield hooks, real
@@ -414,6 +486,16 @@ func (c17Sim) RunRace(e *Env, ci interface{}) {
 				defer func() { recover() }()
 				command.Execute()
 			}()
+		}
+		if remote {
+			for _, q := range c.Raw {
+				q := q
+				wg.Add(1)
+				go func() {
+					defer wg.Done()
+					rawGet(q)
+				}()
+			}
 		}
 		wg.Wait()
 	}
